@@ -748,7 +748,7 @@ impl DnsListenerHandler {
                     .await
                     {
                         let cmsg = udp::ControlMessage::new().set_send_from(rm.local_ip());
-                        local_listener
+                        if let Err(io) = local_listener
                             .send_msg(
                                 in_reply_bytes.as_slice(),
                                 &cmsg,
@@ -756,7 +756,12 @@ impl DnsListenerHandler {
                                 Some(&rm.address.unwrap()), /* TODO: Error? */
                             )
                             .await
-                            .expect("Failed to send reply"); // TODO: Better error handling
+                        {
+                            log::warn!("[{:x}] Failed to send DNS reply: {}", msg.in_query.qid, io);
+                            IN_QUERY_RESULT
+                                .with_label_values(&["UDP", "send fail"])
+                                .inc();
+                        }
                     } else {
                         IN_QUERY_DROPPED.inc();
                         log::warn!("[{:x}] Not Sending Reply: Rate Limit", msg.in_query.qid);
